@@ -166,6 +166,11 @@ void inst_all(Types<2>::TestSpace& test2, Types<2>::TrialSpace& trial2, Types<3>
   { Assembly::BilinearOperatorMatrixAssemblyJob1<LaplaceOperatorBlocked<2>, BlockedMatrix, Types<2>::TestSpace> job(laplace_b, mat_b, test2, cubature_name, DT(1)); inst_task(job); }
   { Assembly::BilinearOperatorMatrixAssemblyJob2<LaplaceOperatorBlocked<2>, BlockedMatrix, Types<2>::TestSpace, Types<2>::TrialSpace> job(laplace_b, mat_b2, test2, trial2, cubature_name, DT(1)); inst_task(job); }
   { Assembly::LinearFunctionalAssemblyJob<ForceFunctional<Fun2>, ScalarVector, Types<2>::TestSpace> job(force, vec_s, test2, cubature_name, DT(1)); inst_task(job); }
+  // operators whose test and trial configurations differ: the role of every forwarded configuration constant is visible
+  { TrialDerivativeOperator op(0); Assembly::BilinearOperatorMatrixAssemblyJob2<TrialDerivativeOperator, ScalarMatrix, Types<2>::TestSpace, Types<2>::TrialSpace> job(op, mat_s2, test2, trial2, cubature_name, DT(1)); inst_task(job); }
+  { TestDerivativeOperator op(0); Assembly::BilinearOperatorMatrixAssemblyJob2<TestDerivativeOperator, ScalarMatrix, Types<2>::TestSpace, Types<2>::TrialSpace> job(op, mat_s2, test2, trial2, cubature_name, DT(1)); inst_task(job); }
+  { TrialDerivativeOperator op(0); Assembly::BilinearOperatorMatrixAssemblyJob1<TrialDerivativeOperator, ScalarMatrix, Types<2>::TestSpace> job(op, mat_s, test2, cubature_name, DT(1)); inst_task(job); }
+  { LaplaceFunctional<Fun2> lf(fun2); Assembly::LinearFunctionalAssemblyJob<LaplaceFunctional<Fun2>, ScalarVector, Types<2>::TestSpace> job(lf, vec_s, test2, cubature_name, DT(1)); inst_task(job); }
   { Assembly::ForceFunctionalAssemblyJob<Fun2, ScalarVector, Types<2>::TestSpace> job(fun2, vec_s, test2, cubature_name, DT(1)); inst_task(job); }
 
   // ---- gather helpers ---------------------------------------------------------------------------------
